@@ -418,7 +418,7 @@ def run_table(case, acc, order):
                                             observed=back), order)
 
 
-IDS = [0, 3, 10, 2 ** 40]
+IDS = [0, 3, 10, 2 ** 40, 2 ** 53 + 1]      # the last: an id that no double holds exactly
 
 
 def simple_cases(tier, seed):
